@@ -42,7 +42,7 @@ def plan(tier):
 
 
 def ncases(tier):
-    return 1500 if tier == "quick" else 8000
+    return 2500 if tier == "quick" else 8000
 
 
 class Dev:
